@@ -458,8 +458,42 @@ def main():
     pj = [ci for ci, c in enumerate(cases) if c["kind"] in ("lc", "khc", "khc2") and c["bucket"] == 0 and io[ci][1] == 0
           and io[ci][0] and "ptree=" in io[ci][0][0] and any(l.startswith("Q") for l in c["body"])]
     def pmodel_lines(c, implD):
-        return [dline(c) + " | ptree=" + re.search(r"ptree=(\S+)", implD).group(1)] + [l for l in c["body"] if l.startswith("Q")]
-    pstat = {"trees": 0, "queries": 0, "node_bounds": 0, "plane_distances": 0, "trace_compared": 0, "max_rel_err_bound": 0.0, "nodes_norm_gt_1": 0, "inner_nodes": 0, "trees_wf_up_to_rounding": 0}
+        pn = re.search(r"pnth=(\S+)", implD)
+        return [dline(c) + " | ptree=" + re.search(r"ptree=(\S+)", implD).group(1) + (" pnth=" + pn.group(1) if pn else "")] + [l for l in c["body"] if l.startswith("Q")]
+    def ptree_cmp(kind, a, b, where="root"):
+        """model tree (built by the construction model) vs real tree: leaf index sets and anchors exact, doubles at 1e-12"""
+        if a[0] != b[0]: return "%s: model has a %s, the real tree a %s" % (where, "leaf" if a[0] == "L" else "node", "leaf" if b[0] == "L" else "node")
+        if a[0] == "L":
+            return None if sorted(a[1]) == sorted(b[1]) else "%s: leaf index sets differ: model %s / real %s" % (where, sorted(a[1]), sorted(b[1]))
+        fa, fb = a[1], b[1]
+        if not fclose(float(fa[0]), float(fb[0])): return "%s: threshold model %s / real %s" % (where, fa[0], fb[0])
+        if kind == "lc":
+            na, nb = [float(x) for x in fa[1].split(",")], [float(x) for x in fb[1].split(",")]
+            if len(na) != len(nb) or not all(fclose(x, y) for x, y in zip(na, nb)): return "%s: normal vector model %s / real %s" % (where, fa[1], fb[1])
+        else:
+            if fa[1] != fb[1] or fa[2] != fb[2]: return "%s: anchors (positive, negative) model (%s, %s) / real (%s, %s)" % (where, fa[1], fa[2], fb[1], fb[2])
+            if not fclose(float(fa[3]), float(fb[3])): return "%s: m_normalInvNorm model %s / real %s" % (where, fa[3], fb[3])
+        return ptree_cmp(kind, a[2], b[2], where + ".left") or ptree_cmp(kind, a[3], b[3], where + ".right")
+    def pbuild_differs(c, md, implD, count=True):
+        f = dict(x.split("=", 1) for x in md.split()[1:] if "=" in x)
+        if "built" not in f: return "construction: the model driver printed no built tree: %s" % md[:200]
+        if f["ftie"] == "yes":
+            # the projections of two different points tie in exact arithmetic but not as doubles (or the other way round): the real
+            # split follows the rounded keys, the exact model cannot reproduce it; the real tree is still checked by pwf_treeb above
+            if count: pstat["build_float_ties"] += 1
+            return None
+        if f["oracle"] != "ok": return "construction: recorded std::nth_element result / keys rejected: %s" % f["oracle"][:400]
+        u, k = f["calls"].split("/")
+        if u != k: return "construction: the model consulted %s of %s recorded std::nth_element calls" % (u, k)
+        w = ptree_cmp(c["kind"], parse_ptree(f["built"]), parse_ptree(re.search(r"ptree=(\S+)", implD).group(1)))
+        if w: return "construction: " + w + " (model %s / real %s)" % (f["built"][:300], re.search(r"ptree=(\S+)", implD).group(1)[:300])
+        if f["modelwf"] != "WF": return "construction: the model tree fails pwf_treeb (contradicts lc_build_wellformed / khc_build_wellformed): %s" % f["built"][:300]
+        if f["modelunit"] != "ok": return "construction: a node of the model tree has a normal of squared norm != 1: %s" % f["built"][:300]
+        if count:
+            pstat["build_trees"] += 1; pstat["build_nth_calls"] += int(k); pstat["build_inner_nodes"] += f["built"].count("N")
+        return None
+    pstat = {"trees": 0, "queries": 0, "node_bounds": 0, "plane_distances": 0, "trace_compared": 0, "max_rel_err_bound": 0.0, "nodes_norm_gt_1": 0, "inner_nodes": 0, "trees_wf_up_to_rounding": 0,
+             "build_trees": 0, "build_nth_calls": 0, "build_inner_nodes": 0, "build_float_ties": 0}
     def fclose(x, y, tol=1e-12):
         return abs(x - y) <= tol * (1.0 + max(abs(x), abs(y)))
     def proj_differs(c, a, b, count=True):
@@ -475,6 +509,8 @@ def main():
         units = [] if f.get("unit", "-") == "-" else [float(x) for x in f["unit"].split(",")]
         for u in units:
             if not abs(u - 1.0) <= 1e-12: return "unit-norm: a node of the real %s tree has squared gradient norm %r of funct (must be 1): %s" % (c["kind"], u, b[0][:300])
+        w = pbuild_differs(c, a[0], b[0], count)
+        if w: return w
         n = len(c["pts"])
         for l, x, y in zip([l for l in c["body"] if l.startswith("Q")], a[1:], b[1:]):
             ax, ay = parse_aux(x), parse_aux(y)
